@@ -61,15 +61,26 @@ def claimed():
 
 
 def run_checks(sid):
+    """the checks run against a scratch clone of /repo (VERIF_REPO) with the patch applied; evidence and replay files of
+    these runs go to scratch directories so that /verif/evidence always describes the unchanged tree"""
     d = os.path.join(SEEDED, sid)
-    rc, out = sh('git -C %s status --porcelain' % REPO)
-    assert out.strip() == '', '/repo not clean: ' + out
-    rc, out = sh('git -C %s apply %s/patch.diff' % (REPO, d))
+    clone = os.environ.get('SEED_CLONE', '/tmp/taverif-seed-repo')
+    if not os.path.isdir(clone):
+        rc, out = sh('git clone -q %s %s' % (REPO, clone))
+        assert rc == 0, out
+    sh('git -C %s fetch -q origin && git -C %s reset -q --hard origin/main && git -C %s clean -fdq' % (clone, clone, clone))
+    if os.path.exists(os.path.join(REPO, 'Cargo.lock')):
+        shutil.copy(os.path.join(REPO, 'Cargo.lock'), os.path.join(clone, 'Cargo.lock'))
+    rc, out = sh('git -C %s apply %s/patch.diff' % (clone, d))
     assert rc == 0, out
+    scratch = clone + '-out'
+    os.makedirs(scratch + '/evidence', exist_ok=True)
+    os.makedirs(scratch + '/replay', exist_ok=True)
+    envp = 'VERIF_REPO=%s VERIF_EVID_DIR=%s/evidence VERIF_REPLAY_DIR=%s/replay ' % (clone, scratch, scratch)
     verdicts = {}
     try:
         for pid in claimed():
-            rc, out = sh('python3 check.py %s --tier quick' % pid, cwd=VERIF, timeout=3600)
+            rc, out = sh(envp + 'python3 check.py %s --tier quick' % pid, cwd=VERIF, timeout=3600)
             lines = [l for l in out.split('\n') if l.startswith(('VIOLATION', 'UNDECIDED', 'KNOWN', 'OK'))]
             verdicts[pid] = {'rc': rc, 'lines': lines[:6]}
             # keep the replay files of violations with the seed
@@ -80,8 +91,7 @@ def run_checks(sid):
                     if os.path.exists(rp):
                         shutil.copy(rp, os.path.join(d, 'replay', os.path.basename(rp)))
     finally:
-        sh('git -C %s checkout -- .' % REPO)
-        sh('git -C %s clean -fdq' % REPO)
+        sh('git -C %s checkout -- . && git -C %s clean -fdq' % (clone, clone))
     return verdicts
 
 
@@ -126,7 +136,8 @@ def main():
                 continue
             v = run_checks(sid)
             meta['checks'] = v
-            meta['detected_by'] = sorted(p for p, r in v.items() if r['rc'] == 1)
+            meta['detected_by'] = sorted(p for p, r in v.items() if r['rc'] == 1 and any(l.startswith('VIOLATION') for l in r['lines']))
+            meta['errors'] = sorted(p for p, r in v.items() if r['rc'] not in (0, 1, 2) or (r['rc'] == 1 and not any(l.startswith('VIOLATION') for l in r['lines'])))
             meta['undecided'] = sorted(p for p, r in v.items() if r['rc'] == 2)
             meta['target_detected'] = meta['breaks_property'] in meta['detected_by']
             json.dump(meta, open(mp, 'w'), indent=1)
